@@ -222,9 +222,8 @@ def run_case(scheme, cfg, profile, seed_, present=True, absent=False, want_shape
             tok = sch.TokenGen(key_, kw)
             res = sch.Search(edb_, tok).get_result_list()
             exp = db_[kw] if kwi else []
-            got = list(res) if not isinstance(res, (set, frozenset)) else sorted(res, key=lambda x: exp.index(x) if x in exp else -1)
             s["out"] = "result"
-            s["pos"] = sc.result_positions(got, exp)
+            s["pos"] = sc.result_positions(sc.ordered(res, exp), exp)
         except Exception as ex:
             s["err"] = type(ex).__name__ + ": " + str(ex)[:100]
         rec["searches"].append(s)
